@@ -192,7 +192,8 @@ class H:
         return bool(self.v)
 
     def __len__(self):
-        TICK.tick("len")
+        # not a counted callback: CPython's list/tuple builders call it as a length *hint* (PEP 424), an optimisation
+        # that compiled code is free to skip
         return len(self.seq)
 
     def __iter__(self):
